@@ -85,7 +85,12 @@ def base_c():
 
 def base_d():
     """Path items with several operations, each owning inline classes (inline enum parameter, inline object body / response)."""
-    S = {"Item": {"type": "object", "properties": {"id": {"type": "integer"}, "state": ref("State")}}, "State": {"type": "string", "enum": ["on", "off"]}}
+    S = {"Item": {"type": "object", "properties": {"id": {"type": "integer"}, "state": ref("State")}}, "State": {"type": "string", "enum": ["on", "off"]},
+         # reference cycles: a bad piece inside one takes the cycle (and its dependants) away, nothing else
+         "TreeNode": {"type": "object", "properties": {"v": {"type": "integer"}, "children": {"type": "array", "items": ref("TreeNode")}}},
+         "Folder": {"type": "object", "properties": {"name": {"type": "string"}, "entries": {"type": "array", "items": ref("Entry")}}},
+         "Entry": {"type": "object", "properties": {"parent": ref("Folder"), "size": {"type": "integer"}}},
+         "Shelf": {"type": "object", "properties": {"top": ref("Folder")}}}
     iobj = lambda **p: {"type": "object", "properties": p}  # noqa: E731
     ok = lambda sch: {"200": {"description": "ok", "content": {"application/json": {"schema": sch}}}}  # noqa: E731
     sort = lambda: {"name": "sort", "in": "query", "schema": {"type": "string", "enum": ["asc", "desc"]}}  # noqa: E731
@@ -100,6 +105,8 @@ def base_d():
          "/plain": {"get": {"operationId": "getPlain", "responses": {"204": {"description": "n"}}}},
          # operations that are ALONE in their tag (a fault in one empties the tag)
          "/solo": {"get": {"operationId": "getSolo", "tags": ["solo"], "responses": ok(ref("Item"))}},
+         "/tree": {"get": {"operationId": "getTree", "responses": ok(ref("TreeNode"))}},
+         "/shelf": {"get": {"operationId": "getShelf", "responses": ok(ref("Shelf"))}},
          "/duo": {"post": {"operationId": "postDuo", "tags": ["duo", "extra"], "requestBody": {"content": {"application/json": {"schema": ref("Item")}}}, "responses": {"204": {"description": "n"}}}},
          # shared path-item parameters: inherited by one operation, re-declared (same name and location) by the others
          "/shared": {"parameters": [{"name": "q", "in": "query", "schema": {"type": "string"}}, {"name": "X-T", "in": "header", "schema": {"type": "string"}}],
@@ -287,6 +294,13 @@ def run_case(p):
     key = p["key"]
     r1 = gen.generate(copy.deepcopy(dprime))
     if r1.crash:
+        # the bad piece takes EVERYTHING away (no output at all) although the document without its cone generates: that is damage to unrelated output
+        cone_ = deps.cone(dprime, carriers)
+        rfree = gen.generate(deps.remove_units(dprime, cone_))
+        if not rfree.crash and not rfree.rejected and rfree.tree:
+            return {"violations": [{"oracle": "bad-piece-crashes-generation", "site": "-", "key": key,
+                                    "detail": f"the generator raised {r1.crash['type']} at {r1.crash['where']} and produced nothing; without the piece and its cone {len(rfree.tree)} files are generated"}],
+                    "outcome": "viol:crash", "nontrivial": True, "steps": 2}
         return {"skipped_crash": True, "outcome": f"crash:{r1.crash['type']}@{r1.crash['where']}", "nontrivial": False}
     if r1.rejected:
         return {"violations": [{"oracle": "whole-document-rejected", "site": "-", "key": key, "detail": r1.diags[0].short()}], "outcome": "rejected"}
